@@ -414,6 +414,12 @@ class Exec(object):
                                        z3.SubSeq(h2.seq, idx + 1, n - idx - 1))
                     return [('next', None, s)]
                 return self.branch(z3.And(idx >= 0, idx < n), st, ok, lambda s: self.exc(IndexError, s))
+            if isinstance(h, HDict) and h.ktype is None:
+                # first store into an untyped {} literal fixes the key/value types
+                h.ktype, h.vtype = type_of(i), type_of(v)
+                h.keys = z3.Empty(z3.SeqSort(sort_of(h.ktype)))
+                comps0 = h.vtype[1:] if isinstance(h.vtype, tuple) and h.vtype[0] == 'tuple' else [h.vtype]
+                h.maps = [z3.K(sort_of(h.ktype), zero_of(c)) for c in comps0]
             if isinstance(h, HDict):
                 kt = term_of(i)
                 has = dict_has(h, i)
@@ -547,6 +553,7 @@ class Exec(object):
             return self.val(from_py(g[n.id]), st)
         if hasattr(builtins, n.id):
             return self.val(VPy(getattr(builtins, n.id)), st)
+        self.name_errors = getattr(self, 'name_errors', []) + ['%s at %s:%d' % (n.id, fr.relpath, n.lineno)]
         return self.exc(NameError, st)
 
     def ex_Tuple(self, n, st, fr):
